@@ -83,7 +83,7 @@ Example C05_examples :
   is_prefix4 (canon4 [10; 20]) (pad_to 4 [10; 20]) 16 /\ canon6n [11; 10] = [97;46;98;46] ++ s_ip6_arpa /\
   maximal6 [120;97;46] [11].
 Proof.
-  repeat (split; [vm_compute; reflexivity|]). split; [|split; [reflexivity|]].
+  do 8 (split; [vm_compute; reflexivity|]). split; [|split; [reflexivity|]].
   - exists [10; 20]. split; [repeat constructor; unfold byte; lia|]. split; [cbn; lia|]. repeat split; reflexivity.
   - right. right. exists [120; 97]. split; [reflexivity|]. intros (q0 & c & E & Hal & _).
     change [120; 97] with ([120] ++ [97]) in E. apply app_inj_tail in E as [<- <-]. destruct Hal as [E|(q & E)]; [discriminate|].
